@@ -586,6 +586,20 @@ class Run(object):
             return st.ghost[n]
         return self.resolve_global(n, st, node)
 
+    def assigned_names(self):
+        """names the function being executed (the verified one, or the callee being inlined) binds: its locals"""
+        fdef = getattr(self, "cur_fdef", None) or self.fdef
+        if fdef is None:
+            return set()
+        cache = self.__dict__.setdefault("_assigned_cache", {})
+        if id(fdef) not in cache:
+            out = set(a.arg for a in fdef.args.args)
+            for sub in ast.walk(fdef):
+                if isinstance(sub, ast.Name) and isinstance(sub.ctx, (ast.Store, ast.Del)):
+                    out.add(sub.id)
+            cache[id(fdef)] = out
+        return cache[id(fdef)]
+
     def resolve_global(self, n, st, node=None):
         m = self.module
         if n in m.funcs:
@@ -614,8 +628,8 @@ class Run(object):
             return ModuleV(self.engine.spec_imports[n])
         if n in ("IndexError", "KeyError", "TypeError", "AttributeError", "PermissionError", "FileNotFoundError", "OSError", "Exception", "dict"):
             return ClassV("builtins." + n)
-        if not self.spec_mode and node is not None and isinstance(getattr(node, "ctx", None), ast.Load):
-            # a local that is not bound on this path: python raises UnboundLocalError (NameError)
+        if not self.spec_mode and node is not None and isinstance(getattr(node, "ctx", None), ast.Load) and n in self.assigned_names():
+            # a local (a name the function assigns somewhere) that is not bound on this path: python raises UnboundLocalError
             self.check(st, FALSE, "UnboundLocalError", node)
             raise DeadPath()
         raise Unsupported("unbound name %s (line %s)" % (n, getattr(node, "lineno", "?")))
@@ -814,9 +828,22 @@ class Run(object):
                 raise Unsupported("slice step")
             lo = self.ev(sl.lower, st) if sl.lower is not None else None
             hi = self.ev(sl.upper, st) if sl.upper is not None else None
+            if not self.spec_mode and isinstance(base, ListV) and (isinstance(lo, OptV) or isinstance(hi, OptV)):
+                # python: a bound that is None at run time is an omitted bound
+                seq = self.raw(st, base)
+                alts = [(TRUE, lo, hi)]
+                if isinstance(lo, OptV):
+                    alts = [(And(c, lo.isnone), None, h) for c, l, h in alts] + [(And(c, Not(lo.isnone)), lo.val, h) for c, l, h in alts]
+                if isinstance(hi, OptV):
+                    alts = [(And(c, hi.isnone), l, None) for c, l, h in alts] + [(And(c, Not(hi.isnone)), l, hi.val) for c, l, h in alts]
+                out = None
+                for c, l, h in reversed(alts):
+                    t = PySlice(seq, l, h)
+                    out = t if out is None else Ite(c, t, out)
+                return ListV(self.new_cell(st, out), base.elem)
             if isinstance(lo, OptV):
-                # a bound that may be None at run time means "from the start"; in the contracts it is used after an
-                # `is not None` conjunct: take the payload, obliging the path to prove it is not None
+                # in the contracts an optional bound is used after an `is not None` conjunct: take the payload, obliging the
+                # path to prove it is not None
                 self.check(st, Not(lo.isnone), "TypeError", node)
                 lo = lo.val
             if isinstance(hi, OptV):
@@ -1855,8 +1882,10 @@ class Run(object):
         sub.guards = list(st.guards)
         sub.pending = []
         saved = (self.module, self.cls, self.inner)
+        saved_fdef = getattr(self, "cur_fdef", None)
         self.module, self.inner = mod, inner
         self.cls = inner.split(".")[0] if "." in inner else None
+        self.cur_fdef = fdef
         eng.inline_stack.append(q)
         base_pc = len(st.pc)
         try:
@@ -1864,6 +1893,7 @@ class Run(object):
         finally:
             eng.inline_stack.pop()
             self.module, self.cls, self.inner = saved
+            self.cur_fdef = saved_fdef
         outs = []
         raised = []
         for c in comps:
